@@ -2,7 +2,8 @@
 # usage: ./run.sh <Cnn> quick|thorough|replay <file>
 # Rebuilds the check against /repo's working tree on every call.
 set -u
-cd /verif
+cd "$(dirname "$(readlink -f "$0")")"
+export VERIF_ROOT="$PWD"
 export GOFLAGS=-mod=mod GOPROXY=off GOSUMDB=off GOTOOLCHAIN=local
 id="$1"; shift
 lc=$(echo "$id" | tr 'A-Z' 'a-z')
